@@ -68,6 +68,15 @@ func (m *DB) genID() primitive.ObjectID {
 	return id
 }
 
+// Clone returns an independent copy of the whole model.
+func (m *DB) Clone() *DB {
+	n := &DB{Colls: map[string]*Coll{}, nextID: m.nextID}
+	for k, c := range m.Colls {
+		n.Colls[k] = c.clone()
+	}
+	return n
+}
+
 // C returns the collection, creating it when create is set.
 func (m *DB) C(db, coll string, create bool) *Coll {
 	k := db + "." + coll
